@@ -115,7 +115,14 @@ def judge(col: common.Collector, part: str, frames: Sequence[Frame],
           expected: Dict[int, List[bytes]], meta: Dict[str, Any], text_too: bool,
           active_too: bool) -> None:
     from odxtools.isotp_state_machine import IsoTpActiveDecoder, IsoTpStateMachine
+    # the order in which the receive IDs are configured must not matter: use a non-ascending,
+    # stream-dependent order (and the paired transmit IDs in the same positions)
     ids = sorted(expected.keys())
+    if len(ids) > 1:
+        rot = (len(frames) % (len(ids) - 1)) + 1 if len(ids) > 2 else 1
+        ids = ids[rot:] + ids[:rot]
+        if len(frames) % 2:
+            ids = ids[::-1]
     sm = IsoTpStateMachine(list(ids))
     got, err = run_stream(sm, frames)
     col.ev()
@@ -292,14 +299,21 @@ def part_merges(task: Tuple, col: common.Collector) -> None:
             # one extra frame at every position: flow control on a monitored ID, unrelated ID
             if n % (3 if tier == "thorough" else 11) == 0:
                 for pos in range(len(m) + 1):
-                    for extra in ((IDS[(pos + n) % len(seqs)], flow_control(n % 3, 8, 0)),
-                                  (UNRELATED, bytes([0x21, 1, 2, 3, 4, 5, 6, 7])),
-                                  (UNRELATED, bytes([0x10, 0x20, 9, 9, 9, 9, 9, 9]))):
-                        mm = m[:pos] + [extra] + m[pos:]
+                    for extra in ([(IDS[(pos + n) % len(seqs)], flow_control(n % 3, 8, 0))],
+                                  [(UNRELATED, bytes([0x21, 1, 2, 3, 4, 5, 6, 7]))],
+                                  [(UNRELATED, bytes([0x10, 0x20, 9, 9, 9, 9, 9, 9]))],
+                                  # bursts from one unrelated ID that look like ISO-TP traffic
+                                  [(UNRELATED, bytes([0x21, 1, 2, 3, 4, 5, 6, 7])),
+                                   (UNRELATED, bytes([0x22, 8, 9, 10, 11, 12, 13, 14]))],
+                                  [(UNRELATED, bytes([0x03, 0xA1, 0xA2, 0xA3])),
+                                   (UNRELATED, bytes([0x02, 0xB1, 0xB2])),
+                                   (UNRELATED + 1, bytes([0x10, 0x09, 1, 2, 3, 4, 5, 6])),
+                                   (UNRELATED + 1, bytes([0x21, 7, 8, 9]))]):
+                        mm = m[:pos] + extra + m[pos:]
                         judge(col, "merges+fc", mm, expected,
-                              {"combo": list(combo), "inserted": [extra[0], extra[1]], "at": pos,
+                              {"combo": list(combo), "inserted": [[c, d] for c, d in extra], "at": pos,
                                "class": "interleaving+flow-control/unrelated"},
-                              text_too=False, active_too=False)
+                              text_too=(pos == 0 and n % 5 == 0), active_too=(pos == 1))
     col.count("merge_streams", n)
     if combos:
         col.sample({"part": "merges", "combo": list(combos[0]),
@@ -357,8 +371,11 @@ def part_random(task: Tuple, col: common.Collector) -> None:
                                                            r.randrange(128),
                                                            r.choice([None, 0xAA]))))
             elif x < 0.14:
-                stream.append((UNRELATED + r.randrange(4),
-                               bytes(r.getrandbits(8) for _ in range(r.randrange(1, 9)))))
+                uid = UNRELATED + r.randrange(4)
+                for _ in range(r.choice([1, 1, 2, 3])):
+                    stream.append((uid, bytes([r.choice([0x02, 0x10, 0x21, 0x22, 0x30,
+                                                         r.getrandbits(8)])]) +
+                                   bytes(r.getrandbits(8) for _ in range(r.randrange(0, 8)))))
         judge(col, "random", stream, expected,
               {"ids": nids, "frames": len(stream), "class": "random-stream"},
               text_too=(n % 4 == 0), active_too=(n % 4 == 1))
